@@ -993,6 +993,12 @@ class Tensor:
 
         (view_parent,) = self._creator.variables
 
+        if view_parent is not self._base and view_parent._base is not self._base:
+            # The tensor that ``self`` was viewed from has since been disconnected
+            # from ``self.base`` (it now acts as a base of its own); its gradient
+            # is no longer a view of ``self.base.grad``.
+            return None
+
         # recursively fetches grad from parent
         grad = view_parent._grad_or_view_of_base_grad()
         with _track.no_autodiff:
